@@ -219,6 +219,7 @@ def run(ck):
     narrowing_len_sweep(ck, crate("rs", "concordium_base"), re.compile(r"concordium_base::(ps_sig|aggregate_sig|ecvrf)"), re.compile(r"(verify|check)[a-z_0-9]*(::\{closure#\d+\})*$"))
 
     conditional_transcript_sweep(ck, crate("rs", "concordium_base"), re.compile(r"concordium_base::(ps_sig|aggregate_sig|ecvrf|eddsa_ed25519)"), floor=1)
+    gated_verification_sweep(ck, crate("rs", "concordium_base"), re.compile(r"concordium_base::(ps_sig|aggregate_sig|ecvrf|eddsa_ed25519)"), floor=3)
     eq_polarity_sweep(ck, crate("rs", "concordium_base"), re.compile(r"concordium_base::(ps_sig|aggregate_sig|ecvrf)"), re.compile(r"(verify|check)[a-z_0-9]*(::\{closure#\d+\})*$"))
     rejecting_checks_floor(ck, crate("rs", "concordium_base"), re.compile(r"concordium_base::(ps_sig|aggregate_sig|ecvrf)"), re.compile(r"(verify|verifier|validate|check|extract_commit_message)[a-z_0-9]*(::\{closure#\d+\})*$"), "C19")
 
